@@ -197,8 +197,9 @@ MMIORegion::MMIORegion(MemoryInterfaceUnit& miu, ICU& icu, Apbp& apbp_from_cpu, 
 
     // This register is a mirror of CPU side register DSP_PSTS
     impl->cells[0x0D8] = Cell::BitFieldCell({
+        // S': the CPU-side flag, i.e. the semaphore sent from DSP to CPU
         BitFieldSlot{
-            9, 1, {}, [&apbp_from_cpu]() -> u16 { return apbp_from_cpu.IsSemaphoreSignaled(); }},
+            9, 1, {}, [&apbp_from_dsp]() -> u16 { return apbp_from_dsp.IsSemaphoreSignaled(); }},
         BitFieldSlot{10, 1, {}, [&apbp_from_dsp]() -> u16 { return apbp_from_dsp.IsDataReady(0); }},
         BitFieldSlot{11, 1, {}, [&apbp_from_dsp]() -> u16 { return apbp_from_dsp.IsDataReady(1); }},
         BitFieldSlot{12, 1, {}, [&apbp_from_dsp]() -> u16 { return apbp_from_dsp.IsDataReady(2); }},
